@@ -1,13 +1,17 @@
 """C15 - Flatten/inflate is an exact inverse for every nested container.
 
-Real code under test: torchsnapshot.flatten.{flatten, inflate, _encode, _decode, _should_flatten_dict} and
-SnapshotMetadata.to_yaml/from_yaml for the container manifest.  Model: coq/model/Flatten.v.
+Real code under test: torchsnapshot.flatten.{flatten, inflate, _flatten, _entry_to_container, _populate_container,
+_encode, _decode, _should_flatten_dict} and SnapshotMetadata.to_yaml/from_yaml for the container manifest.
+Models: the hand model coq/model/Flatten.v (what the theorems were proved about) AND the terms regenerated from
+flatten.py on every run (gen/FlattenGen.v, gen/FlattenRecGen.v; vocabulary coq/model/FlattenPy.v; observations
+coq/model/FlattenGenObs.v).  Every structure case is evaluated against both.
 
 NOT modelled (cases falling there are skipped and counted under `skipped.*` in the evidence):
   * urllib unquote of "%XY" with XY >= 0x80 (never produced by _encode);
   * int(token) outside [+-]?[0-9]+ where Python still accepts (white space, '_', non-ASCII digits) - flatten only
     ever writes str(idx) under a list;
-  * a path present in both the manifest and the leaf map (flatten never produces one).
+  * a path present in both the manifest and the leaf map (flatten never produces one): not described by the HAND model;
+    the generated inflate is a translation of the code and is compared on these cases too (`perturbed.both`).
 """
 from __future__ import annotations
 
@@ -21,11 +25,16 @@ from lib.tocoq import val
 
 PROP = "C15"
 PROPS_FILE = "props/C15.v"
-GEN = ["gen_flatten"]
+GEN = ["gen_flatten", "gen_flatten_rec"]
 CORRESPONDENCES = [
     "flatten:flatten~model",
     "inflate:inflate(flatten)~model",
     "inflate:perturbed-manifest~model",
+    "flatten:flatten~generated",
+    "inflate:inflate(flatten)~generated",
+    "inflate:perturbed-manifest~generated",
+    "containers:_entry_to_container~generated",
+    "containers:_populate_container~generated",
     "encode:_encode~model",
     "decode:_decode~model",
     "keys:_should_flatten_dict~model",
@@ -59,6 +68,8 @@ ASSUMPTIONS = [
 ]
 
 IMPORTS = "From TS Require Import model.Flatten.\n"
+IMPORTS_GEN = "From TS Require Import model.Flatten model.FlattenPy model.FlattenGenObs.\n"
+GEN_MODEL_ERROR = None          # set by correspond(): why model/FlattenGenObs.vo could not be built in this run
 
 
 # =========================================================================== specs <-> python objects
@@ -470,10 +481,9 @@ def int_modelled(tok: str) -> bool:
     return False                # Python accepts, the model does not describe it
 
 
-def inflate_modelled(manifest, flattened) -> bool:
+def prims_modelled(manifest, flattened) -> bool:
+    """the runtime primitives both models share (unquote, int) are inside their modelled domain"""
     from torchsnapshot.manifest import ListEntry
-    if set(manifest) & set(flattened):
-        return False
     for p in list(manifest) + list(flattened):
         parent, _, tok = p.rpartition("/")
         if BAD_ESC.search(tok):
@@ -481,6 +491,11 @@ def inflate_modelled(manifest, flattened) -> bool:
         if isinstance(manifest.get(parent), ListEntry) and not int_modelled(tok):
             return False
     return True
+
+
+def inflate_modelled(manifest, flattened) -> bool:
+    """the HAND model describes this input (the generated inflate also covers a path that is both container and leaf)"""
+    return not (set(manifest) & set(flattened)) and prims_modelled(manifest, flattened)
 
 
 # =========================================================================== perturbations of a valid flatten output
@@ -498,7 +513,7 @@ def perturb(rng, m, f, prefix, tab):
         return type(e)(keys=list(e.keys if keys is None else keys))
 
     tag = rng.choice(["drop-leaf", "drop-entry", "drop-key", "add-key", "dup-key", "reorder-keys", "kind", "extra-leaf",
-                      "drop-root", "empty"])
+                      "drop-root", "empty", "leaf-on-container"])
     paths = list(m)
     if tag == "drop-leaf" and f:
         for p in rng.sample(list(f), rng.randint(1, min(3, len(f)))):
@@ -544,6 +559,8 @@ def perturb(rng, m, f, prefix, tab):
         q = f"{p}/{tok}"
         if q not in m and q not in f:
             f[q] = tab.leaf(9000 + rng.randrange(3))
+    elif tag == "leaf-on-container" and paths:
+        f[rng.choice(paths)] = tab.leaf(9100 + rng.randrange(3))      # outside the hand model; the generated one covers it
     if rng.random() < 0.5:
         items = list(m.items())
         rng.shuffle(items)
@@ -597,8 +614,8 @@ def stats(spec, acc):
 def check_structures(ctx: Ctx, res: Result, with_model: bool):
     from torchsnapshot.flatten import flatten
     rng = ctx.rng
-    c_flat, c_inf, c_mal = [], [], []
-    meta_flat, meta_inf, meta_mal = [], [], []
+    c_flat, c_inf, c_mal, c_both = [], [], [], []
+    meta_flat, meta_inf, meta_mal, meta_both = [], [], [], []
     other_tab = Table()
     other = build(["d", 0, [[S("w"), ["L", 7000]], [S("p"), ["l", [["L", 7001]]]]]], other_tab)
     for origin, spec, prefix in structures(ctx, res):
@@ -648,26 +665,104 @@ def check_structures(ctx: Ctx, res: Result, with_model: bool):
         if origin in ("random", "corpus"):
             for _ in range(2):
                 tag, pm, pf = perturb(rng, m, f, prefix, tab)
-                if not inflate_modelled(pm, pf):
+                if not prims_modelled(pm, pf):
                     res.count("skipped.inflate_not_modelled", tag)
                     continue
                 out = run_inflate(pm, pf, prefix, tab)
+                case = (inflate_input_term(pm, pf, prefix, tab), val(out))
+                if set(pm) & set(pf):
+                    res.count("perturbed.both", "exception" if out is None else "value")
+                    c_both.append(case)
+                    meta_both.append((tag, spec, prefix))
+                    continue
                 res.count("perturbed.kind", tag)
                 res.count("perturbed.outcome", "exception" if out is None else "value")
-                c_mal.append((inflate_input_term(pm, pf, prefix, tab), val(out)))
+                c_mal.append(case)
                 meta_mal.append((tag, spec, prefix))
     if not with_model:
         return
-    for name, tag, fn, cases, meta, shard in (
-            ("flatten:flatten~model", "C15_flat", "obs_flatten", c_flat, meta_flat, 300),
-            ("inflate:inflate(flatten)~model", "C15_inf", "obs_inflate", c_inf, meta_inf, 200),
-            ("inflate:perturbed-manifest~model", "C15_mal", "obs_inflate", c_mal, meta_mal, 200)):
-        bad, errs = coqrun.run_cases(tag, IMPORTS, fn, cases, shard=shard)
+    # the flatten observation of the generated term is an option (None = the fuel of _flatten ran out / an exception)
+    c_flat_gen = [(i, "(VL [" + o + "])") for i, o in c_flat]
+    for name, tag, imports, fn, cases, meta, shard in (
+            ("flatten:flatten~model", "C15_flat", IMPORTS, "obs_flatten", c_flat, meta_flat, 300),
+            ("inflate:inflate(flatten)~model", "C15_inf", IMPORTS, "obs_inflate", c_inf, meta_inf, 200),
+            ("inflate:perturbed-manifest~model", "C15_mal", IMPORTS, "obs_inflate", c_mal, meta_mal, 200),
+            ("flatten:flatten~generated", "C15_gflat", IMPORTS_GEN, "obs_flatten_gen", c_flat_gen, meta_flat, 300),
+            ("inflate:inflate(flatten)~generated", "C15_ginf", IMPORTS_GEN, "obs_inflate_gen", c_inf, meta_inf, 200),
+            ("inflate:perturbed-manifest~generated", "C15_gmal", IMPORTS_GEN, "obs_inflate_gen", c_mal + c_both,
+             meta_mal + meta_both, 200)):
+        if imports is IMPORTS_GEN and GEN_MODEL_ERROR:
+            res.mismatches.append(Mismatch(name, "generated model unavailable", None, GEN_MODEL_ERROR))
+            continue
+        bad, errs = coqrun.run_cases(tag, imports, fn, cases, shard=shard)
         for e in errs:
             res.mismatches.append(Mismatch(name, "coqc error", None, e))
         for i in bad:
             res.mismatches.append(Mismatch(name, {"case": meta[i], "input": cases[i][0][:1500]}, cases[i][1][:1500], None))
         res.traces_validated += len(cases)
+
+
+# --------------------------------------------------------------------------- _entry_to_container / _populate_container
+def check_containers(ctx: Ctx, res: Result):
+    """the two helpers of inflate run directly against the generated terms (fresh container; values are plain leaves)"""
+    from torchsnapshot.flatten import _encode, _entry_to_container, _populate_container
+    from torchsnapshot.manifest import DictEntry, ListEntry, OrderedDictEntry
+    rng = ctx.rng
+    tab = Table()
+    g = Gen(rng)
+    e2c_cases, pop_cases, meta = [], [], []
+    list_toks = ["0", "1", "2", "3", "10", "11", "9", "-1", "+3", "007", "-0", "x", "", "1a", "12345678901234567890", "١"]
+    extra_toks = ["x", "%41", "A", "1", "True", "01", "", "%2F", "%25", "0", "%2E"]
+    for i in range(ctx.n(160, 1600)):
+        kind = rng.choice(["list", "dict", "dict", "odict"])
+        if kind == "list":
+            entry = ListEntry()
+            toks = rng.sample(list_toks, rng.randint(0, 7))
+            if rng.random() < 0.6:
+                toks = [t for t in toks if INT_RE.match(t)]
+        else:
+            _, ks = g.keys(rng.choice([0, 1, 2, 3, 4, 6]))
+            keys = [key_of(k) for k in ks if k[0] != "o"]
+            if rng.random() < 0.3 and keys:
+                keys.insert(rng.randint(0, len(keys)), rng.choice(keys))       # a repeated key in the entry
+            entry = (DictEntry if kind == "dict" else OrderedDictEntry)(keys=keys)
+            toks = [_encode(str(k)) for k in keys if rng.random() < 0.7] + rng.sample(extra_toks, rng.randint(0, 2))
+            toks = list(dict.fromkeys(toks))
+            rng.shuffle(toks)
+        if any(BAD_ESC.search(t) for t in toks) or (kind == "list" and not all(int_modelled(t) for t in toks)):
+            res.count("skipped.populate_not_modelled", kind)
+            continue
+        res.count("containers.kind", kind)
+        fresh = _entry_to_container(entry)
+        e2c_cases.append((entry_term(entry, tab), val([container_obs(fresh, tab)])))
+        values = {t: tab.leaf(i * 10 + j) for j, t in enumerate(toks)}
+        try:
+            _populate_container(path="p", container=fresh, values=values)
+            out = [container_obs(fresh, tab)]
+        except Exception:  # noqa
+            out = None
+        res.count("containers.populate_outcome", "exception" if out is None else "value")
+        vals_term = "[" + "; ".join(f"({s_term(t)}, {obj_term(v, tab)})" for t, v in values.items()) + "]"
+        pop_cases.append((f"({entry_term(entry, tab)}, {vals_term})", val(out)))
+        meta.append((kind, toks))
+    for name, tag, fn, cases in (("containers:_entry_to_container~generated", "C15_e2c", "obs_entry_to_container_gen", e2c_cases),
+                                 ("containers:_populate_container~generated", "C15_pop", "obs_populate_gen", pop_cases)):
+        if GEN_MODEL_ERROR:
+            res.mismatches.append(Mismatch(name, "generated model unavailable", None, GEN_MODEL_ERROR))
+            continue
+        bad, errs = coqrun.run_cases(tag, IMPORTS_GEN, fn, cases, shard=400)
+        for e in errs:
+            res.mismatches.append(Mismatch(name, "coqc error", None, e))
+        for i in bad:
+            res.mismatches.append(Mismatch(name, {"case": ascii(meta[i]), "input": cases[i][0][:800]}, cases[i][1][:800], None))
+        res.traces_validated += len(cases)
+
+
+def container_obs(c, tab):
+    """a container as _entry_to_container / _populate_container leave it (obs_cont of model/FlattenGenObs.v)"""
+    if type(c) is list:
+        return [1, [[obj_obs(x, tab)] for x in c]]
+    return [2, int(type(c) is OrderedDict), [[key_obs(k, tab), [obj_obs(v, tab)]] for k, v in c.items()]]
 
 
 # --------------------------------------------------------------------------- small functions
@@ -734,7 +829,14 @@ def check_functions(ctx: Ctx, res: Result):
 
 def correspond(ctx: Ctx) -> Result:
     res = Result(rule=RULE)
+    # the generated observations must be there even when a proof obligation of this run broke; when the generated
+    # files themselves do not build (translator failed closed / ill-typed term) the generated correspondences are
+    # reported broken instead of being evaluated against a stale build
+    global GEN_MODEL_ERROR
+    ok, out, _ = coqrun.make(["model/FlattenGenObs.vo"])
+    GEN_MODEL_ERROR = None if ok else "the generated model does not build: " + coqrun.error_excerpt(out, 8)
     check_structures(ctx, res, with_model=True)
+    check_containers(ctx, res)
     check_functions(ctx, res)
     res.exhaustive = ctx.thorough
     return res
